@@ -168,8 +168,13 @@ Contract('wpull/protocol/http/util.py', 'should_close', {'http_version': TStr(),
              ('http11', 'implies(http_version != "HTTP/1.0", result == (lower(connection_field if connection_field is not None else "") == "close"))')], raises={})
 
 # ---- read_body: the dispatch (chunked before Content-Length before read-until-close; no body where the protocol forbids one) -----------
-lib.MODULE_CONSTS['DEFAULT_NO_CONTENT_CODES'] = None
-_NCC = VSet(z3.Lambda([z3.Int('ncc')], z3.Or(z3.And(z3.Int('ncc') >= 100, z3.Int('ncc') < 200), z3.Int('ncc') == 204, z3.Int('ncc') == 304)), z3.IntVal(102), TInt())
+# the DEFAULT set of bodiless status codes is read from the source on every run (a change of the constant changes the verdict of read_body)
+_ncc_py = lib.module_constants('wpull/protocol/http/stream.py', names={'DEFAULT_NO_CONTENT_CODES'}).get('DEFAULT_NO_CONTENT_CODES')
+if _ncc_py is None or not all(isinstance(k_, int) for k_ in _ncc_py): raise ToolLimit('DEFAULT_NO_CONTENT_CODES in stream.py is not a constant set of integers the engine can read')
+_mem = z3.K(z3.IntSort(), z3.BoolVal(False))
+for k_ in sorted(_ncc_py): _mem = z3.Store(_mem, k_, True)
+_NCC = VSet(_mem, z3.IntVal(len(_ncc_py)), TInt())
+lib.MODULE_CONSTS['DEFAULT_NO_CONTENT_CODES'] = _NCC
 CONTRACTS['is_no_body'].defaults['no_content_codes'] = _NCC
 lib.MODFUNCS['wpull.protocol.http.util.should_close'] = lambda ex, st, node, *a: ex.call(CONTRACTS['should_close'], list(a), {}, st, node)
 lib.NONE_OK.add('wpull.protocol.http.util.should_close')
